@@ -26,6 +26,7 @@ type gor struct {
 }
 
 type sched struct {
+	w     *worker
 	gs    []*gor
 	cur   *gor
 	dead  bool
@@ -91,16 +92,68 @@ func (s *sched) spawn(i *interpreter, pos token.Pos, fn value, args []value) {
 }
 
 // pick returns the next goroutine to run other than self (nil if none is ready).
+// With schedule exploration on, which ready goroutine continues is a decision.
 func (s *sched) pick(self *gor) *gor {
+	var ready []*gor
 	for _, g := range s.gs {
 		if g == self || g.done {
 			continue
 		}
 		if g.ready == nil || g.ready() {
-			return g
+			ready = append(ready, g)
 		}
 	}
-	return nil
+	if len(ready) == 0 {
+		return nil
+	}
+	if s.w != nil && s.w.schedAll && len(ready) > 1 && !s.finishing && !s.dead {
+		return ready[s.w.choose(len(ready))]
+	}
+	return ready[0]
+}
+
+// yieldPoint is called before every channel operation: under schedule
+// exploration any other ready goroutine may run first (the interleavings of
+// goroutines that communicate only through channels are determined by the
+// order of their channel operations).
+func (s *sched) yieldPoint(w *worker) {
+	if !(w.schedAll || w.schedEager) || s.dead || s.finishing || len(s.gs) < 2 {
+		return
+	}
+	self := s.cur
+	var others []*gor
+	for _, g := range s.gs {
+		if g != self && !g.done && (g.ready == nil || g.ready()) {
+			others = append(others, g)
+		}
+	}
+	if len(others) == 0 {
+		return
+	}
+	var next *gor
+	if w.schedEager {
+		// deterministic "always yield" policy: the next ready goroutine in round-robin order
+		next = others[0]
+		for _, g := range others {
+			if g.id > self.id {
+				next = g
+				break
+			}
+		}
+	} else {
+		k := w.choose(len(others) + 1)
+		if k == 0 {
+			return
+		}
+		next = others[k-1]
+	}
+	self.ready = nil
+	s.cur = next
+	next.wake <- struct{}{}
+	<-self.wake
+	if s.dead {
+		panic(killG{})
+	}
 }
 
 // passOn is called by a goroutine that is finished: somebody else must run.
@@ -211,6 +264,7 @@ type chanV struct {
 func chanSend(fr *frame, c *chanV, v value) {
 	w := fr.i.w
 	s := fr.i.sched
+	s.yieldPoint(w)
 	if c == nil {
 		s.block(w, func() bool { return false }, "send on nil channel")
 	}
@@ -255,6 +309,7 @@ func chanTake(c *chanV) (value, bool) {
 func chanRecv(fr *frame, c *chanV) (value, bool) {
 	w := fr.i.w
 	s := fr.i.sched
+	s.yieldPoint(w)
 	if c == nil {
 		s.block(w, func() bool { return false }, "receive from nil channel")
 	}
@@ -263,6 +318,7 @@ func chanRecv(fr *frame, c *chanV) (value, bool) {
 }
 
 func chanClose(fr *frame, c *chanV) {
+	fr.i.sched.yieldPoint(fr.i.w)
 	if c == nil {
 		panic(targetPanicString(fr, "close of nil channel"))
 	}
@@ -281,6 +337,7 @@ func targetPanicString(fr *frame, msg string) interface{} {
 func doSelect(fr *frame, instr *ssa.Select) value {
 	w := fr.i.w
 	s := fr.i.sched
+	s.yieldPoint(w)
 	type cs struct {
 		c    *chanV
 		send bool
